@@ -286,6 +286,21 @@ def judge(code, ep, text, ana):
         return BAD("reserialise", "object re-serialises", str(cands), clause="reserialise:raises", kind=c, ep=ep)
     if absent and not cands:
         return OK("absent-grs:object")
+    if c == "Contract":
+        # the caller edits the description dictionary of the object it was handed; parsing the same text again (a fresh
+        # string object) must still give an equal object (Mode S, depth 2)
+        ok, inf = wrapped(o.info)
+        if ok and isinstance(inf, dict):
+            for k in list(inf):
+                if isinstance(inf[k], list):
+                    del inf[k][:]
+                inf[k] = "caller-edit"
+            inf["type"] = "nulldata"
+            r3 = pcall(code, ep, text)
+            ok3, i3 = wrapped(ident, r3[1]) if r3[0] == "ok" and r3[1] is not None else (False, r3[1])
+            if not ok3 or i3 != idn:
+                return BAD("history", "%s(%r) again = an equal object" % (ep, text[:60]), show(i3) if ok3 else str(i3)[:200],
+                           clause="aliasing:contract-info-shared", kind=c, ep=ep)
     tried = []
     for label, t2 in cands:
         if not isinstance(t2, str) or t2.startswith("EXC "):
@@ -363,6 +378,10 @@ def shaped_payloads(seed):
     for lab, kb in keys:
         out.append(("xkey:" + lab, head + kb))
     out.append(("xkey:depth3-child-hardened", b"\x03" + b"\xde\xad\xbe\xef" + b"\x80\x00\x00\x01" + chain + b"\0" + k.to_bytes(32, "big")))
+    for dep in (0x7f, 0x80, 0xff):
+        # depth is an unsigned byte: every value is a well-formed extended key
+        out.append(("xkey:depth%d" % dep, bytes([dep]) + b"\xde\xad\xbe\xef" + b"\x00\x00\x00\x01" + chain + b"\x02" + gx))
+        out.append(("xkey:depth%d-prv" % dep, bytes([dep]) + b"\xde\xad\xbe\xef" + b"\x00\x00\x00\x01" + chain + b"\0" + k.to_bytes(32, "big")))
     out.append(("xkey:depth0-nonzero-parent", b"\x00" + b"\xde\xad\xbe\xef" + bytes(4) + chain + b"\x02" + gx))
     out.append(("xkey:prv-short1", head + b"\0" + (1).to_bytes(31, "big")))
     out.append(("xkey:prv-long1-leading00", head + b"\0\0" + (1).to_bytes(32, "big")))
